@@ -5,7 +5,7 @@ import json, os, vlib, sysval
 def project(events):
     keep = []
     for e in events:
-        if e["ev"] in ("init", "upload", "deliver", "stop", "drop", "return", "req", "runaway"):   # runaway: no reading explains a poller that never stops asking
+        if e["ev"] in ("init", "upload", "deliver", "stop", "drop", "return", "req", "runaway", "panic"):   # runaway / panic: no reading explains them
             keep.append(e)
         elif e["ev"] in ("list", "get"):
             keep.append({"ev": "req", "fault": bool(e.get("fault", False))})
